@@ -37,6 +37,9 @@ import (
 
 const modPath = "github.com/aclements/go-moremath"
 
+// properties quantified over every exported function and method (C20: purity and race freedom of the API)
+var wholeAPI = map[string]bool{"C20": true}
+
 type shapeNode struct {
 	key    string
 	lits   []string
@@ -102,7 +105,8 @@ func shapePass(repo, propsFile, dictDir string) (map[string]string, map[string]s
 	}
 	imp := &modImporter{pkgs: map[string]*types.Package{}, std: importer.ForCompiler(fset, "source", nil)}
 	info := &types.Info{Uses: map[*ast.Ident]types.Object{}, Defs: map[*ast.Ident]types.Object{},
-		Types: map[ast.Expr]types.TypeAndValue{}, Selections: map[*ast.SelectorExpr]*types.Selection{}}
+		Types: map[ast.Expr]types.TypeAndValue{}, Selections: map[*ast.SelectorExpr]*types.Selection{},
+		Implicits: map[ast.Node]types.Object{}}
 	// type-check in dependency order (retry until no progress)
 	pending := map[string]*pkgSrc{}
 	for k, v := range srcs {
@@ -179,9 +183,49 @@ func shapePass(repo, propsFile, dictDir string) (map[string]string, map[string]s
 					e = v.X
 				case *ast.ParenExpr:
 					e = v.X
+				case *ast.TypeAssertExpr:
+					e = v.X
+				case *ast.UnaryExpr:
+					if v.Op != token.AND {
+						return nil
+					}
+					e = v.X
 				default:
 					return nil
 				}
+			}
+		}
+		// local names bound to (part of) a parameter stand for it: x := p.(T), q := &p.f, s := p[i:j],
+		// and the variable of a type switch on a parameter
+		if params != nil && body != nil {
+			for pass := 0; pass < 2; pass++ {
+				ast.Inspect(body, func(x ast.Node) bool {
+					switch v := x.(type) {
+					case *ast.AssignStmt:
+						if v.Tok == token.DEFINE && len(v.Lhs) >= 1 && len(v.Rhs) == 1 {
+							if o := rootObj(v.Rhs[0]); o != nil && params[o] {
+								if id, ok := v.Lhs[0].(*ast.Ident); ok {
+									if d := info.Defs[id]; d != nil {
+										if _, basic := d.Type().Underlying().(*types.Basic); !basic {
+											params[d] = true
+										}
+									}
+								}
+							}
+						}
+					case *ast.TypeSwitchStmt:
+						if as, ok := v.Assign.(*ast.AssignStmt); ok && len(as.Rhs) == 1 {
+							if o := rootObj(as.Rhs[0]); o != nil && params[o] {
+								for _, cl := range v.Body.List {
+									if io := info.Implicits[cl]; io != nil {
+										params[io] = true
+									}
+								}
+							}
+						}
+					}
+					return true
+				})
 			}
 		}
 		pnote := func(e ast.Expr, how string) {
@@ -219,6 +263,16 @@ func shapePass(repo, propsFile, dictDir string) (map[string]string, map[string]s
 				callee := strings.Join(strings.Fields(types.ExprString(v.Fun)), "")
 				if (callee == "copy" || callee == "append" || strings.HasPrefix(callee, "sort.")) && len(v.Args) > 0 {
 					pnote(v.Args[0], callee+"@")
+				}
+				// a pointer-receiver method of the module called on (something reached from) a parameter
+				if se, ok := v.Fun.(*ast.SelectorExpr); ok {
+					if f, ok := info.Uses[se.Sel].(*types.Func); ok && isModObj(f) {
+						if sig := f.Type().(*types.Signature); sig.Recv() != nil {
+							if _, ptr := sig.Recv().Type().(*types.Pointer); ptr {
+								pnote(se.X, f.Name()+"()@")
+							}
+						}
+					}
 				}
 			}
 			if e, ok := x.(ast.Expr); ok {
@@ -392,6 +446,15 @@ func shapePass(repo, propsFile, dictDir string) (map[string]string, map[string]s
 		}
 		seen := map[types.Object]bool{}
 		var queue []types.Object
+		// a property about the whole exported surface (its harness drives every entry point of every package)
+		// takes every file of the library as a root
+		if wholeAPI[p.ID] {
+			p.Anchors.Files = p.Anchors.Files[:0]
+			for f := range byFile {
+				p.Anchors.Files = append(p.Anchors.Files, f)
+			}
+			sort.Strings(p.Anchors.Files)
+		}
 		for _, f := range p.Anchors.Files {
 			for _, o := range byFile[f] {
 				if !seen[o] {
